@@ -10,7 +10,8 @@ HERE = os.path.dirname(os.path.dirname(os.path.abspath(__file__)))
 
 def one(name):
     d = os.path.join(HERE, "seeded", name)
-    prop = json.load(open(os.path.join(d, "meta.json")))["property"]
+    meta = json.load(open(os.path.join(d, "meta.json")))
+    prop = meta.get("check", meta["property"])   # "check": the registered check that catches it, where that is not the property's own
     t0 = time.time()
     try:
         p = subprocess.run([os.path.join(HERE, "tools", "try_seed_wt.sh"), os.path.join(d, "patch.diff"), "quick", prop],
